@@ -53,14 +53,14 @@ def canon(v, depth=0):
     return ["obj", type(v).__name__, repr(v)[:80]]
 
 
-def run_one(P, source: str, verbose=False, call_invalid=False):
+def run_one(P, source: str, verbose=False, call_invalid=False, rule="start"):
     from pegen.tokenizer import Tokenizer
     tk = Tokenizer(tokenize.generate_tokens(io.StringIO(source).readline))
     p = P(tk, verbose=verbose)
     p.call_invalid_rules = call_invalid
     signal.setitimer(signal.ITIMER_REAL, TIME_LIMIT)
     try:
-        res = p.start()
+        res = getattr(p, rule)()
         return {"kind": "ok", "value": canon(res), "mark": tk.mark(), "fetched": len(tk._tokens),
                 "invalid_flag": p.call_invalid_rules}
     except Timeout:
@@ -101,7 +101,15 @@ def main():
             if dead:
                 res.append({"kind": "skipped"})
                 continue
-            one = run_one(P, src, verbose=job.get("verbose", False), call_invalid=job.get("call_invalid", False))
+            if "rules" in job:
+                one = {"kind": "multi", "by_rule": {}}
+                for rn in job["rules"]:
+                    o = run_one(P, src, rule=rn)
+                    one["by_rule"][rn] = [o["kind"], bool(o.get("value")) if o["kind"] == "ok" else False, o.get("mark", 0)]
+                    if o["kind"] in ("timeout", "memory"):
+                        one["kind"] = o["kind"]
+            else:
+                one = run_one(P, src, verbose=job.get("verbose", False), call_invalid=job.get("call_invalid", False))
             res.append(one)
             if one["kind"] in ("timeout", "memory"):
                 dead = True         # a looping parser: do not burn the budget on the remaining inputs
